@@ -83,6 +83,10 @@ Proof.
   destruct peers; [clear Hnil|discriminate].
   rewrite Hsg in Hpeers. fold E in Hpeers.
   set (pname := oname ++ dash ++ ih_name i) in *.
+  apply bind_ok in H as (s' & cps & H1 & H). apply ask_ok in H1 as [-> _].
+  apply bind_ok in H as (s' & ux1 & H1 & H). apply guard_ok in H1 as [-> _].
+  apply bind_ok in H as (s' & ltk & H1 & H). apply ask_ok in H1 as [-> _].
+  apply bind_ok in H as (s' & ux2 & H1 & H). apply guard_ok in H1 as [-> _].
   apply bind_ok in H as (s2 & p & Hp & H).
   (* the Interface constructor *)
   unfold new_interface in Hp.
@@ -249,6 +253,14 @@ Proof.
   apply bind_err_cases in H as [H|(s' & u2 & H1 & H)]; [left; rewrite <- Hsg; exact (no_mut_guard _ _ _ _ _ H)|].
   apply guard_ok in H1 as [-> _].
   set (pname := oname ++ dash ++ ih_name i) in *.
+  apply bind_err_cases in H as [H|(s' & cps & H1 & H)]; [left; rewrite <- Hsg; exact (no_mut_ask _ _ _ _ H)|].
+  apply ask_ok in H1 as [-> _].
+  apply bind_err_cases in H as [H|(s' & ux1 & H1 & H)]; [left; rewrite <- Hsg; exact (no_mut_guard _ _ _ _ _ H)|].
+  apply guard_ok in H1 as [-> _].
+  apply bind_err_cases in H as [H|(s' & ltk & H1 & H)]; [left; rewrite <- Hsg; exact (no_mut_ask _ _ _ _ H)|].
+  apply ask_ok in H1 as [-> _].
+  apply bind_err_cases in H as [H|(s' & ux2 & H1 & H)]; [left; rewrite <- Hsg; exact (no_mut_guard _ _ _ _ _ H)|].
+  apply guard_ok in H1 as [-> _].
   apply bind_err_cases in H as [H|(s2 & p & H1 & H)].
   { left. rewrite <- Hsg.
     refine (new_interface_atomic fl pname None (nid nsn) (Some tServicePort) None s s1 e _ H).
